@@ -174,6 +174,19 @@ def gen_doc(rng, min_widgets=2, max_widgets=5, want_dynamic=True):
             if h:
                 w["handlers"].append(list(h))
         doc["widgets"].append(w)
+    # an explicit id that is exactly a name qmluic generates for objects without id, followed by objects of that class
+    # without id, each with a dynamic binding of its own: the generated names must steer around the id
+    if want_dynamic and rng.chance(0.2) and dyn_sources(ids):
+        cls, base = rng.choice([("QLabel", "label"), ("QPushButton", "pushButton"), ("QCheckBox", "checkBox")])
+        if not any(w["id"] and w["id"].startswith(base) for w in doc["widgets"]):
+            first = {"cls": cls, "id": base + rng.choice(["", "1", "1", "2"]), "props": [], "handlers": []}
+            doc["widgets"].insert(rng.randint(0, len(doc["widgets"])), first)
+            for _ in range(rng.randint(2, 4)):
+                prop, ty = rng.choice(DYN_TARGETS[cls])
+                e = dyn_expr(rng, ids, ty)
+                if e:
+                    doc["widgets"].append({"cls": cls, "id": None, "props": [[prop, e]], "handlers": []})
+                    ndyn += 1
     # constant attached properties that the layout consumes (they exist only as attributes of the <layout> element): each
     # value is a number found nowhere else in the document, set by children in document order - so a higher row/column is
     # often set before a lower one
